@@ -204,6 +204,10 @@ func c14Run(c *fw.Ctx) {
 	defer os.RemoveAll(dir)
 	file := filepath.Join(dir, "upstream_configs.yml")
 	vars := map[string]string{"cluster": "prod", "root": "internal.test", "grp": "engineers"}
+	for k, v := range vars {
+		os.Setenv("SSO_CONFIG_"+strings.ToUpper(k), v)
+		defer os.Unsetenv("SSO_CONFIG_" + strings.ToUpper(k))
+	}
 
 	load := func(d c14Doc) ([]*proxy.UpstreamConfig, error, *proxy.ServerConfig) {
 		if err := os.WriteFile(file, []byte(d.yaml()), 0o644); err != nil {
@@ -219,7 +223,7 @@ func c14Run(c *fw.Ctx) {
 		case "group":
 			uc.DefaultConfig.AllowedGroups = []string{"env-default-group"}
 		}
-		proxy.VerifSetTemplateVars(uc, vars)
+		// template variables come from SSO_CONFIG_* in the process environment, the way production reads them
 		svc := &proxy.ServerConfig{}
 		err := proxy.SetUpstreamConfigs(uc, proxy.CookieConfig{Name: "_sso_proxy"}, svc)
 		return proxy.VerifUpstreamConfigs(uc), err, svc
@@ -385,6 +389,53 @@ func c14Run(c *fw.Ctx) {
 		d.Second = seconds[x.Choose("second-service", 2)]
 		if owned {
 			check(x, d, "two-services")
+		}
+	})
+	// sweep 1c: template values of every shape arrive whole (values containing '=', ':', '$', spaces)
+	probes := []string{`^/plain$`, `^/status\?format=json$`, `^/a=b=c$`, `^/x:y\$`}
+	owners := []string{"ops@x.test", "ops+team=core@x.test", "a=b@x.test"}
+	drive(c, "template-values", -1, func(x *explore.Exec, owned bool) {
+		probe := probes[x.Choose("skip-pattern-value", len(probes))]
+		owner := owners[x.Choose("address-value", len(owners))]
+		label := []string{"t", "httpbin", "https-redirector", "ftp"}[x.Choose("host-label", 4)]
+		if !owned {
+			return
+		}
+		os.Setenv("SSO_CONFIG_PROBE", probe)
+		os.Setenv("SSO_CONFIG_OWNER", owner)
+		defer os.Unsetenv("SSO_CONFIG_PROBE")
+		defer os.Unsetenv("SSO_CONFIG_OWNER")
+		doc := "- service: templated\n  default:\n    from: " + label + ".{{cluster}}.sso.test\n    to: " + label + "-backend.{{root}}:8080\n    options:\n      skip_auth_regex:\n        - '{{probe}}'\n      allowed_email_addresses:\n        - '{{owner}}'\n"
+		if err := os.WriteFile(file, []byte(doc), 0o644); err != nil {
+			panic(err)
+		}
+		uc := &proxy.UpstreamConfigs{ConfigsFile: file, Cluster: "prod", Scheme: "https"}
+		uc.DefaultConfig.Timeout = 10 * time.Second
+		uc.DefaultConfig.ProviderSlug = "idp"
+		err := proxy.SetUpstreamConfigs(uc, proxy.CookieConfig{Name: "_sso_proxy"}, &proxy.ServerConfig{})
+		ups := proxy.VerifUpstreamConfigs(uc)
+		c.Res.Outcome(fmt.Sprintf("template-values|%s|%s|%s|err=%v", probe, owner, label, err != nil))
+		if err != nil {
+			c.Res.Count("rejected_documents", 1)
+			return
+		}
+		desc := map[string]interface{}{"document": doc, "SSO_CONFIG_PROBE": probe, "SSO_CONFIG_OWNER": owner}
+		viol := func(key, what string) {
+			c.Res.Violate(fw.Violation{Property: "C14", Key: "C14/" + key, What: what, Scenario: "template-values", Choices: x.Choices(), Detail: desc})
+		}
+		if len(ups) != 1 {
+			viol("upstream-count", fmt.Sprintf("expected one upstream, got %d", len(ups)))
+			return
+		}
+		u := ups[0]
+		if r, ok := u.Route.(*proxy.SimpleRoute); !ok || r.FromURL == nil || r.ToURL == nil || r.FromURL.Host != label+".prod.sso.test" || r.ToURL.Host != label+"-backend.internal.test:8080" || r.ToURL.Scheme != "https" {
+			viol("route-not-valid/host-label-"+label, fmt.Sprintf("from %s.prod.sso.test to %s-backend.internal.test:8080 resolved to the route %+v", label, label, u.Route))
+		}
+		if len(u.SkipAuthCompiledRegex) != 1 || u.SkipAuthCompiledRegex[0].String() != probe {
+			viol("template-value-altered/skip_auth_regex", fmt.Sprintf("SSO_CONFIG_PROBE=%q but the compiled skip pattern is %v", probe, u.SkipAuthCompiledRegex))
+		}
+		if len(u.AllowedEmailAddresses) != 1 || u.AllowedEmailAddresses[0] != owner {
+			viol("template-value-altered/allowed_email_addresses", fmt.Sprintf("SSO_CONFIG_OWNER=%q but the allowed addresses are %v", owner, u.AllowedEmailAddresses))
 		}
 	})
 	// sweep 2: fail-closed
